@@ -226,17 +226,7 @@ impl Report {
 /// (signature, what) entries of known_findings.json for a property.
 fn load_known(dir: &str, id: &str) -> Vec<(String, String)> {
     let mut out = vec![];
-    let mut files = vec![format!("{}/known_findings.json", dir)];
-    // staging area used while checks are being developed in parallel; merged into the single file
-    if let Ok(rd) = std::fs::read_dir(format!("{}/known_findings.d", dir)) {
-        let mut extra: Vec<String> = rd
-            .filter_map(|e| e.ok())
-            .map(|e| e.path().to_string_lossy().to_string())
-            .filter(|p| p.ends_with(".json"))
-            .collect();
-        extra.sort();
-        files.extend(extra);
-    }
+    let files = vec![format!("{}/known_findings.json", dir)];
     for path in files {
         let txt = match std::fs::read_to_string(&path) {
             Ok(t) => t,
